@@ -213,9 +213,9 @@ def check_formula(run, bp, g, cards, only=None):
 
 
 BCFG = Cfg(max_depth=5, theories={"bool", "int", "real", "bv", "str", "arr", "uf", "sort", "quant"},
-           bv_widths=[1, 2, 4], quant_types=[BOOL, BOOL, BV(1), BV(2), SORT("S1")], share=30, nsyms=2)
+           bv_widths=[1, 2, 4], quant_types=[BOOL, BOOL, BV(1), BV(2), SORT("S1")], share=30, nsyms=2, pow=True)
 QCFG = Cfg(max_depth=5, theories={"bool", "int", "quant", "uf"}, quant_types=[BOOL], share=30, nsyms=3)
-ACFG = Cfg(max_depth=4, theories={"bool", "int", "real"}, div=False, share=25)
+ACFG = Cfg(max_depth=4, theories={"bool", "int", "real"}, div=False, share=25, pow=True)
 
 
 def gen_case(rnd, kind):
